@@ -946,6 +946,23 @@ def substring_pairs(rng, quick, rev=False):
                 if not quick or j == per:
                     pairs.append((x, b"#" * 70 + right[:n + j] + c * 3))
                     pairs.append((x, c * 3 + left[len(left) - n - j:] + b"#" * 70))
+    # the same shapes over extreme byte values: every pair collected so far with needle >= 2 is also run through byte
+    # translations (a->0x00, b->0xff, c->0x80, q->0x7f, ...) that preserve equality structure but change ranks, signs,
+    # byte-set residues and hash values (a sample in the quick tier)
+    tr1 = bytes((0x00 if c == 0x61 else 0xff if c == 0x62 else 0x80 if c == 0x63 else 0x7f if c == 0x71 else 0x01 if c == 0x23 else
+                 0xfe if c == 0x2d else (c ^ 0x80)) for c in range(256))
+    tr2 = bytes(((c * 167 + 13) & 0xff) for c in range(256))          # a bijection: scatters ASCII over all residues mod 64
+    base_pairs = [(x, h) for (x, h) in pairs if len(x) >= 2 and len(h) >= 8]
+    stride = 9 if quick else 2
+    for i, (x, h) in enumerate(base_pairs[::stride]):
+        t = tr1 if i % 2 == 0 else tr2
+        pairs.append((x.translate(t), h.translate(t)))
+    # needles of 255 / 256 / 257 / 300 bytes (pair offsets are u8; Pair scans at most 255 bytes)
+    for n in (255, 256, 257, 300):
+        for x in (bytes((i * 7 + 1) & 0xff or 1 for i in range(n)), b"a" * (n - 1) + b"z", b"z" + b"a" * (n - 1), (b"ab" * n)[:n - 1] + b"c"):
+            pairs.append((x, b"q" * 40 + x + b"q" * 9))
+            pairs.append((x, x[1:] + x[:-1] + b"q" + x))
+            pairs.append((x, x[:-1] * 2))
     sm = stale_memory_pairs(rng, quick)
     pairs += sm[::5] if quick else sm
     if not quick:
